@@ -3,6 +3,7 @@ from vlib.term import z, to_coq
 
 ID = 'C05'
 PROP_FILE = 'Props/C05.v'
+EXTRA_PROP_FILES = ['Props/C05Src.v']     # K1 source tie (tools/props/src_translate.py), see docs/reports/SRC.md
 EVAL_FILES = ['Oracle/C05Oracle.v']
 CRATES = ['c05']
 MODES = ['debug', 'release']
@@ -22,7 +23,7 @@ ASSUMPTIONS = [
     'term lengths are powers of two 2^16..2^30 (LogBuffers::from_existing enforces it); the harness uses 2^16..2^20',
     'positions are non-negative and below 2^31 terms; position bounds passed by the caller are non-negative i64',
     'the starting position of every call is on a frame boundary (set_position can break this; such histories are only compared with the model)',
-    'block_poll: term_offset + block_length_limit does not overflow i32 (the debug-build panic / release-build no-op for larger limits is reported by the model, not judged by the oracle)',
+    'block_poll: every i32 block length limit is judged (the model is the code repaired by fixes/C05-block-poll-limit.diff: the sum term_offset + limit saturates)',
     'one polling thread per image; the log grows only by committing frames at the tail (C03 covers torn reads)',
 ]
 TRUSTED = [
